@@ -116,6 +116,51 @@ int main(int argc, char** argv) {
         if (!reached_bound) closed++;
         R.texts["closure " + kase] = reached_bound ? ("depth bound " + std::to_string(maxdepth) + " reached") : "closed: no new canonical state";
     }
+    // ---- two field objects on the same phase space (as main() has a radiation field and a wake field): operations on one must not
+    //      change what the other returns.  Alphabet: P0,P1 | W,C on object A | w,c on object B; depth-bounded BFS with canonical hashing of BOTH
+    for (auto& c : cfgs) {
+        if (!(c.N == 16 || c.N == 33 || (T && c.N == 64))) continue;
+        std::string kase = mcx::Desc()("two-objects", 1)("n", c.n)("N", c.N)("buckets", bstr(c.buckets))("spacing", c.spacing).str();
+        if (!R.mine(kase)) continue;
+        if (R.out_of_time()) { R.not_completed = kase; break; }
+        const unsigned depth2 = T ? 7 : 5;
+        auto mkB = [&](Rig& r) { auto z = std::make_shared<Impedance>(std::vector<impedance_t>(c.N, impedance_t(7.f, -3.f)), 1e12f);
+                                 return std::unique_ptr<ElectricField>(new ElectricField(r.ps, z, c.buckets, c.spacing, nullptr, r.frev, r.revpart, r.Ib, r.E0, r.sd, r.dt)); };
+        auto grab2 = [&](ElectricField& f, char op, std::vector<float>& o) {
+            if (op == 'W') o.assign(f._wakepotential.data(), f._wakepotential.data() + c.n * c.nb);
+            else { o.assign(f.getCSRSpectrum(), f.getCSRSpectrum() + c.N * c.nb); o.insert(o.end(), f.getCSRPower(), f.getCSRPower() + c.nb); } };
+        auto hashf = [&](ElectricField& f, uint64_t h) { const unsigned N = c.N;
+            h = mcx::fnv(f._bp_padded, 4 * N, h); h = mcx::fnv(f._formfactor, 8 * N, h); h = mcx::fnv(f._wakelosses, 8 * N, h); h = mcx::fnv(f._wakepotential_padded, 4 * N, h);
+            h = mcx::fnv(f._wakepotential.data(), 4 * c.n * c.nb, h); h = mcx::fnv(f._csrspectrum.data(), 4 * N * c.nb, h); return mcx::fnv(f._csrintensity.data(), 4 * c.nb, h); };
+        std::vector<float> fresh2[2][2][2];   // [profile][object][op]
+        for (int p = 0; p < 2; p++) for (int ob = 0; ob < 2; ob++) for (int op = 0; op < 2; op++) {
+            Rig r(c); set_impedance(r); auto B = mkB(r); int cur = -1; apply_op(r, (char)('0' + p), cur);
+            ElectricField& f = ob ? *B : *r.f; if (op == 0) f.wakePotential(); else f.updateCSR(0);
+            grab2(f, op == 0 ? 'W' : 'C', fresh2[p][ob][op]);
+        }
+        std::unordered_set<uint64_t> seen; std::deque<std::string> frontier; frontier.push_back("");
+        const char ops2[] = {'0', '1', 'W', 'C', 'w', 'c'};
+        while (!frontier.empty()) {
+            std::string hist = frontier.front(); frontier.pop_front();
+            if (hist.size() >= depth2) continue;
+            for (char op : ops2) {
+                if (hist.empty() && !(op == '0' || op == '1')) continue;
+                std::string h2 = hist + op;
+                Rig r(c); set_impedance(r); auto B = mkB(r); int cur = -1;
+                for (char o : h2) { if (o == '0' || o == '1') apply_op(r, o, cur); else { ElectricField& f = (o == 'w' || o == 'c') ? *B : *r.f; if (o == 'W' || o == 'w') f.wakePotential(); else f.updateCSR(0); } }
+                transitions++;
+                uint64_t k = hashf(*B, hashf(*r.f, mcx::fnv(&cur, 4)));
+                R.eval(kase + " history=" + h2, k, false);
+                if (op != '0' && op != '1') {
+                    const int ob = (op == 'w' || op == 'c'), oi = (op == 'C' || op == 'c');
+                    std::vector<float> o; grab2(ob ? *B : *r.f, oi ? 'C' : 'W', o);
+                    if (!same(o, fresh2[cur][ob][oi])) { R.violate(std::string("C18/two-objects/") + (oi ? "csr" : "wake") + "-differs-from-fresh", kase, "after history " + h2 + " (capitals: object A, small letters: object B on the same phase space) the result differs from a fresh pair's"); continue; }
+                }
+                if (seen.insert(k).second) frontier.push_back(h2);
+            }
+        }
+        states += seen.size();
+    }
     R.numbers["states"] = (double)states; R.numbers["transitions"] = (double)transitions; R.numbers["sum_configurations_closed"] = (double)closed; R.numbers["deepest_history"] = deepest;
     R.bound_done("BFS over {P0,P1,P2,W,D,C,F} histories to closure or depth " + std::to_string(maxdepth) + " per configuration; " + std::to_string(cfgs.size()) + " configurations");
     return R.finish();
